@@ -46,6 +46,9 @@ type c21Input struct {
 	CutAbs   int    `json:"cut_abs"`      // or an absolute position when > 0
 	Rep      int    `json:"rep"`
 	WalEmpty bool   `json:"wal_empty"` // blocked scenarios: the WAL is empty when the backup starts
+	Handler  bool   `json:"handler"`   // dstfail scenarios: through the HTTP handler instead of Store.Backup
+	FailBack int    `json:"fail_back"` // dstfail: the destination fails this many bytes before the end of the stream (<= 0: |value| bytes past the end, i.e. never)
+	FailAt   int    `json:"fail_at"`   // dstfail: or after exactly this many bytes when FailBack == 0 and FailAt >= 0
 }
 
 // ---------------------------------------------------------------- network pieces owned by the harness
@@ -112,6 +115,8 @@ type c21Env struct {
 	clAddr  string
 	dialer  *c21Dialer
 	client  *c21Cluster
+	svcA    *Service
+	dstMeas map[string][2]int64 // dstfail: (path, request) -> (k at measurement, stream length)
 	urlA    string // leader's HTTP API
 	urlB    string // "other node": forwards to the leader
 	started int64  // transactions handed to the store
@@ -224,6 +229,7 @@ func c21NewEnv(t *testing.T) *c21Env {
 	if err := sa.Start(); err != nil {
 		t.Fatal(err)
 	}
+	e.svcA = sa
 	e.urlA = "http://" + sa.Addr().String()
 	e.closers = append(e.closers, func() { sa.Close() })
 
@@ -765,6 +771,168 @@ func c21RunBlocked(e *c21Env, w *vWriter, in c21Input) {
 	w.Emit(vc)
 }
 
+// ---------------------------------------------------------------- scenario 4: the destination of the backup fails
+
+// c21FailWriter accepts `limit` bytes in total, then fails like a full disk (short write + error).
+type c21FailWriter struct {
+	buf   bytes.Buffer
+	limit int64 // < 0: never fails
+}
+
+var errC21NoSpace = fmt.Errorf("harness: no space left on device")
+
+func (f *c21FailWriter) Write(p []byte) (int, error) {
+	if f.limit < 0 || int64(f.buf.Len()+len(p)) <= f.limit {
+		return f.buf.Write(p)
+	}
+	room := f.limit - int64(f.buf.Len())
+	if room < 0 {
+		room = 0
+	}
+	f.buf.Write(p[:room])
+	return int(room), errC21NoSpace
+}
+
+// c21RW is an http.ResponseWriter whose body goes to a c21FailWriter.
+type c21RW struct {
+	h    nethttp.Header
+	code int
+	fw   *c21FailWriter
+}
+
+func (r *c21RW) Header() nethttp.Header { return r.h }
+// net/http commits the status with the first Write, but a Write only fails once the connection is gone, when no
+// status reaches the client anyway.  What can be observed of a handler whose destination failed is whether it
+// signalled the failure: an error status (even a late one) or an aborted response.
+func (r *c21RW) WriteHeader(c int) {
+	if r.code == 0 || (c >= 400 && r.code < 400) {
+		r.code = c
+	}
+}
+func (r *c21RW) Write(p []byte) (int, error) {
+	if r.code == 0 {
+		r.code = 200
+	}
+	return r.fw.Write(p)
+}
+
+// one backup into a destination that takes `limit` bytes: (status, delivered bytes); status 200 = reported as a
+// success, 0 = the response was aborted, anything else = an error status.  For Store.Backup: 200 = nil, 500 = error.
+func (e *c21Env) backupInto(in c21Input, limit int64) (status int, fw *c21FailWriter) {
+	fw = &c21FailWriter{limit: limit}
+	if !in.Handler {
+		if err := e.st.Backup(context.Background(), in.request(), fw); err != nil {
+			return 500, fw
+		}
+		return 200, fw
+	}
+	rw := &c21RW{h: nethttp.Header{}, fw: fw}
+	req, _ := nethttp.NewRequest("GET", "http://leader"+in.query(), nil)
+	aborted := false
+	func() {
+		defer func() {
+			if r := recover(); r != nil {
+				if r != nethttp.ErrAbortHandler {
+					panic(r)
+				}
+				aborted = true
+			}
+		}()
+		e.svcA.ServeHTTP(rw, req)
+	}()
+	if aborted {
+		return 0, fw
+	}
+	if rw.code == 0 {
+		rw.code = 200
+	}
+	return rw.code, fw
+}
+
+func c21RunDstFail(e *c21Env, w *vWriter, in c21Input) {
+	e.pauseWriter() // stays paused until a scenario that needs the writer resumes it: the stream length stays valid
+	path := "store"
+	if in.Handler {
+		path = "handler"
+	}
+	vc := VCase{Input: in, Tags: []string{"kind=dstfail", "path=" + path, "fmt=" + in.Format, fmt.Sprintf("vacuum=%v", in.Vacuum), fmt.Sprintf("compress=%v", in.Compress)}}
+	k := atomic.LoadInt64(&e.acked)
+	if e.dstMeas == nil {
+		e.dstMeas = map[string][2]int64{}
+	}
+	mkey := path + in.query()
+	meas, have := e.dstMeas[mkey]
+	if !have || meas[0] != k {
+		// nothing may change between the measurement and the runs: everything snapshotted, WAL empty
+		for i := 0; i < 100; i++ {
+			err := e.st.Snapshot(0)
+			if (err == nil || err == store.ErrNothingNewToSnapshot || err == store.ErrNoWALToSnapshot) && e.walSize() == 0 {
+				break
+			}
+			time.Sleep(20 * time.Millisecond)
+		}
+		st0, full := e.backupInto(in, -1)
+		if st0 != 200 {
+			vc.OracleFail = fmt.Sprintf("%s backup %s of a quiescent database into a healthy destination failed (%d)", path, in.query(), st0)
+			vc.Sig = "C21:valid-backup-refused"
+			vc.Key = fmt.Sprintf("dstfail|%s|%s|refused", path, in.query())
+			w.Emit(vc)
+			return
+		}
+		if ok, sig, msg := c21Judge(c21Load(e.t.TempDir(), in, full.buf.Bytes()), k, k); !ok {
+			vc.OracleFail = fmt.Sprintf("%s backup %s of a quiescent database is wrong: %s", path, in.query(), msg)
+			vc.Sig = fmt.Sprintf("C21:%s:%s", sig, in.Format)
+		}
+		meas = [2]int64{k, int64(full.buf.Len())}
+		e.dstMeas[mkey] = meas
+	}
+	total := meas[1]
+	limit := total - int64(in.FailBack)
+	if in.FailBack == 0 {
+		limit = int64(in.FailAt)
+	}
+	if limit < 0 {
+		limit = 0
+	}
+	vc.Key = fmt.Sprintf("dstfail|%s|%s|%d/%d", path, in.query(), limit, total)
+	status, fw := e.backupInto(in, limit)
+	delivered := int64(fw.buf.Len())
+	loads := false
+	if status == 200 {
+		ok, _, msg := c21Judge(c21Load(e.t.TempDir(), in, fw.buf.Bytes()), k, k)
+		loads = ok
+		if !ok && vc.OracleFail == "" {
+			what := "Store.Backup returned nil"
+			if in.Handler {
+				what = "the HTTP handler completed with status 200"
+			}
+			vc.OracleFail = fmt.Sprintf("%s for %s although its destination failed after %d of %d bytes (%d bytes before the end); what was delivered: %s", what, in.query(), limit, total, total-limit, msg)
+			vc.Sig = "C21:destination-failure-reported-as-success:" + in.Format
+			if in.Compress {
+				vc.Sig += ":compress"
+			}
+		}
+	} else if limit >= total && vc.OracleFail == "" {
+		vc.OracleFail = fmt.Sprintf("%s backup %s failed (%d) although the destination had room for all %d bytes", path, in.query(), status, total)
+		vc.Sig = "C21:valid-backup-refused"
+	}
+	vc.Nontrivial = limit < total
+	if limit < total {
+		switch {
+		case total-limit <= 16:
+			vc.Tags = append(vc.Tags, "fail=last-16-bytes")
+		case total-limit <= 4096:
+			vc.Tags = append(vc.Tags, "fail=last-4KB")
+		default:
+			vc.Tags = append(vc.Tags, "fail=earlier")
+		}
+	} else {
+		vc.Tags = append(vc.Tags, "fail=never")
+	}
+	vc.Coq = fmt.Sprintf("{| %s; c_scn := DstFail %s %s %s %s %s %s |}", in.coqFlags(), coqBool(in.Handler), coqN(uint64(total)), coqN(uint64(limit)), coqN(uint64(status)), coqN(uint64(delivered)), coqBool(loads))
+	w.Emit(vc)
+}
+
 // ---------------------------------------------------------------- main
 
 func TestVerif_C21(t *testing.T) {
@@ -781,6 +949,8 @@ func TestVerif_C21(t *testing.T) {
 			c21RunCut(e, w, in)
 		} else if in.Kind == "blocked" {
 			c21RunBlocked(e, w, in)
+		} else if in.Kind == "dstfail" {
+			c21RunDstFail(e, w, in)
 		} else {
 			c21RunLive(e, w, in)
 		}
@@ -807,7 +977,7 @@ func TestVerif_C21(t *testing.T) {
 		}
 	}
 	sort.SliceStable(combos, func(i, j int) bool { return false })
-	reps := vN(3, 40)
+	reps := vN(2, 40)
 	for r := 0; r < reps; r++ {
 		for _, c := range combos {
 			for _, remote := range []bool{false, true} {
@@ -827,8 +997,56 @@ func TestVerif_C21(t *testing.T) {
 			}
 		}
 	}
+	// the destination handed to Store.Backup / the HTTP handler fails after N bytes: a few early positions,
+	// the last 4 KB, the last 16 bytes, the exact end
+	backs := []int{1, 2, 4, 8, 9, 12, 16, 17, 64, 256, 1024, 2048, 4095, 4096, 5000, -1}
+	ats := []int{0, 1, 10, 4096}
+	hBacks := []int{1, 8, 9, 2048, 4096, -1}
+	hAts := []int{0, 5000}
+	if vTier() == "thorough" {
+		backs, hBacks = nil, nil
+		for i := 1; i <= 300; i++ {
+			backs = append(backs, i)
+		}
+		for i := 320; i <= 9000; i += 64 {
+			backs = append(backs, i)
+		}
+		backs = append(backs, -1, -100)
+		for i := 1; i <= 9000; i = i*2 + 1 {
+			hBacks = append(hBacks, i, i+8)
+		}
+		hBacks = append(hBacks, -1)
+		for i := 0; i < 100; i++ {
+			ats = append(ats, rng.Intn(40000))
+			hAts = append(hAts, rng.Intn(40000))
+		}
+	}
+	for _, c := range combos {
+		if !c.valid() {
+			continue
+		}
+		for _, handler := range []bool{false, true} {
+			bs, as := backs, ats
+			if handler {
+				bs, as = hBacks, hAts
+			} else if !c.Compress && vTier() != "thorough" {
+				// no compressor between the copy loop and the destination: a sparser sweep
+				bs, as = []int{1, 9, 17, 4096, 5000, -1}, []int{0, 4096}
+			}
+			for _, b := range bs {
+				in := c
+				in.Kind, in.Handler, in.FailBack, in.FailAt = "dstfail", handler, b, -1
+				run(in)
+			}
+			for _, a := range as {
+				in := c
+				in.Kind, in.Handler, in.FailBack, in.FailAt = "dstfail", handler, 0, a
+				run(in)
+			}
+		}
+	}
 	// cut positions: inside the response header, right after it, through the stream, the last byte, no cut
-	fracs := []int{0, 1, 100, 350, 500, 750, 900, 990, 999, 1000}
+	fracs := []int{0, 1, 350, 750, 990, 999, 1000}
 	if vTier() == "thorough" {
 		fracs = nil
 		for i := 0; i <= 200; i++ {
@@ -844,7 +1062,7 @@ func TestVerif_C21(t *testing.T) {
 			in.Kind, in.Remote, in.CutFrac = "cut", true, fr
 			run(in)
 		}
-		for _, abs := range []int{1, 8, 9, 10, 12, 20 + rng.Intn(40)} {
+		for _, abs := range []int{1, 8, 9, 12, 20 + rng.Intn(40)} {
 			in := c
 			in.Kind, in.Remote, in.CutAbs = "cut", true, abs
 			run(in)
